@@ -265,14 +265,22 @@ package lang
 //@   opt constant
 //@   ensures result != nil && result.Tag == ValueObj && result.Obj != nil && *result.Obj != nil
 
+// One level of the correspondence between a decoded Go value and the jqawk value built from it: same kind, same
+// scalar payload, same length.  NewValue ensures it of its result and of every element/member against the element/member
+// it was built from (in order); the whole-tree correspondence follows by structural induction (lemma L4).
+//@ spec func matchesGo(v Value, x any) bool = (x == nil ==> v.Tag == ValueNil) && (istype(x, bool) ==> v.Tag == ValueBool && v.Bool != nil && *v.Bool == as(x, bool)) && (istype(x, float64) ==> v.Tag == ValueNum && v.Num != nil && same(*v.Num, as(x, float64))) && (istype(x, string) ==> v.Tag == ValueStr && v.Str != nil && *v.Str == as(x, string)) && (istype(x, "[]any") ==> v.Tag == ValueArray && len(v.Array) == len(as(x, "[]any"))) && (istype(x, "map[string]any") ==> v.Tag == ValueObj)
 //@ func NewValue [C04,C05,C16]
 //@   requires isGoSrc(srcVal)
 //@   assume json-tree-elements: isGoSrc(arg0) @ NewValue
 //@   modifies nothing
 //@   loop 0 invariant len-tracks-index: rangeindex + 1 == len(arr) && rangeindex >= 0 - 1 && rangeindex + 1 <= len(val) && fresh(arr)
+//@   loop 0 invariant[C04] elements-so-far: forall k int :: 0 <= k && k <= rangeindex ==> arr[k] != nil && fresh(arr[k]) && matchesGo(arr[k].Value, val[k])
 //@   loop 1 invariant len-tracks-index: rangeindex + 1 == len(arr) && rangeindex >= 0 - 1 && rangeindex + 1 <= len(val) && fresh(arr)
 //@   loop 1 invariant[C16] strings-so-far: forall k int :: 0 <= k && k <= rangeindex ==> arr[k] != nil && fresh(arr[k]) && arr[k].Value.Tag == ValueStr && *arr[k].Value.Str == val[k]
 //@   loop 2 invariant own-map: obj != nil && fresh(obj)
+//@   loop 2 invariant[C04] visited-are-source-keys: forall key string :: {visited(key)} visited(key) ==> has(val, key) && has(obj, key)
+//@   loop 2 invariant[C04] members-so-far: forall key string :: {obj[key]} has(obj, key) ==> obj[key] != nil && fresh(obj[key]) && allocated(obj[key]) && matchesGo(obj[key].Value, val[key])
+//@   loop 2 invariant[C04] no-other-members: forall key string :: {has(obj, key)} has(obj, key) ==> visited(key)
 //@   ensures[C04] nil-is-null: srcVal == nil ==> result.Tag == ValueNil && result.ParentObj == nil && result.Str == nil && result.Num == nil
 //@   ensures[C04] bool: istype(srcVal, bool) ==> result.Tag == ValueBool && fresh(result.Bool) && *result.Bool == as(srcVal, bool)
 //@   ensures[C04] float: istype(srcVal, float64) ==> result.Tag == ValueNum && fresh(result.Num) && same(*result.Num, as(srcVal, float64))
@@ -281,6 +289,10 @@ package lang
 //@   ensures[C04] string: istype(srcVal, string) ==> result.Tag == ValueStr && fresh(result.Str) && *result.Str == as(srcVal, string)
 //@   ensures[C04] cells: istype(srcVal, "[]*Cell") ==> result.Tag == ValueArray && result.Array == as(srcVal, "[]*Cell")
 //@   ensures[C04] array-length: istype(srcVal, "[]any") ==> result.Tag == ValueArray && len(result.Array) == len(as(srcVal, "[]any"))
+//@   ensures[C04] matches-its-source: matchesGo(result, srcVal)
+//@   ensures[C04] array-elements-in-order: istype(srcVal, "[]any") ==> (forall k int :: 0 <= k && k < len(as(srcVal, "[]any")) ==> matchesGo(result.Array[k].Value, as(srcVal, "[]any")[k]))
+//@   ensures[C04] object-members: istype(srcVal, "map[string]any") ==> (forall key string :: {has(*result.Obj, key)} has(*result.Obj, key) == has(as(srcVal, "map[string]any"), key))
+//@   ensures[C04] object-members-match: istype(srcVal, "map[string]any") ==> (forall key string :: {has(*result.Obj, key)} has(*result.Obj, key) ==> matchesGo((*result.Obj)[key].Value, as(srcVal, "map[string]any")[key]))
 //@   ensures[C04] strings-length: istype(srcVal, "[]string") ==> result.Tag == ValueArray && len(result.Array) == len(as(srcVal, "[]string"))
 //@   ensures[C04,C16] strings-elements: istype(srcVal, "[]string") ==> (forall k int :: 0 <= k && k < len(as(srcVal, "[]string")) ==> result.Array[k].Value.Tag == ValueStr && *result.Array[k].Value.Str == as(srcVal, "[]string")[k])
 //@   ensures[C04] object: istype(srcVal, "map[string]any") ==> result.Tag == ValueObj && fresh(result.Obj)
@@ -415,6 +427,8 @@ package lang
 //@ ghost $okR bool
 //@ ghost $isName string
 //@ ghost $nmatch int
+//@ ghost $nRuns int
+//@ ghost $prErr error
 //@ ghost $ranBlock bool
 //@ ghost $lastCell *Cell
 // The receiver bound on the function cell when the callee expression was looked up (C15).
@@ -1000,6 +1014,14 @@ package lang
 //@   ensures[C02,C11] the-index-variable-is-unknown-again-after-an-array-root: old(e.root) != nil && old(e.root.Value.Tag) == ValueArray ==> !has(e.stackTop.locals, "$index")
 //@   assert[C02] whole-root-otherwise: old(e.root.Value.Tag) != ValueArray ==> e.ruleRoot == e.root && arg1 == patternRules @ Evaluator.evalRules
 //@   loop 0 invariant protocol: e != nil && e.lexer != nil && frameOK(e.stackTop) && e.stackTop == old(e.stackTop) && !$faulted && e.root == old(e.root) && e.evalDepth == old(e.evalDepth)
+//@   init $prErr = nil
+//@   after Evaluator.evalRules: $prErr = ret0
+//@   loop 0 invariant[C02,C07] no-pass-has-ended-abnormally-so-far: $prErr == nil
+//@   ensures[C01,C02,C07,C11] the-outcome-of-a-pass-is-passed-on-unchanged: $prErr != nil ==> result == $prErr
+//@   init $nRuns = 0
+//@   after Evaluator.evalRules: $nRuns = $nRuns + 1
+//@   loop 0 invariant[C02] one-pass-per-element-so-far: $nRuns == rangeindex + 1
+//@   exit[C02] the-rules-are-run-once-per-element-of-an-array-root-and-once-for-any-other-root: result == nil && old(e.root) != nil ==> $nRuns == (old(e.root.Value.Tag) == ValueArray ? len(old(e.root.Value.Array)) : 1)
 
 // C14 (-r E behaves as BEGINFILE { $ = E }): the selection is what that assignment would store -- a
 // scalar or null is a fresh copy detached from the value it was looked up in, a function is an error.
